@@ -80,6 +80,12 @@ impl<VM: VMBinding> GCTrigger<VM> {
     /// Request a GC.  Called by mutators when polling (during allocation) and when handling user
     /// GC requests (e.g. `System.gc();` in Java).
     fn request(&self) {
+        #[cfg(feature = "mmtk_verif")]
+        crate::verif::gc::ev(
+            crate::verif::gc::Kind::GcRequest,
+            self.request_flag.load(Ordering::Relaxed) as usize,
+            0,
+        );
         if self.request_flag.load(Ordering::Relaxed) {
             return;
         }
@@ -96,6 +102,8 @@ impl<VM: VMBinding> GCTrigger<VM> {
     /// Clear the "GC requested" flag so that mutators can trigger the next GC.
     /// Called by a GC worker when all mutators have come to a stop.
     pub fn clear_request(&self) {
+        #[cfg(feature = "mmtk_verif")]
+        crate::verif::gc::ev(crate::verif::gc::Kind::GcClearRequest, 0, 0);
         self.request_flag.store(false, Ordering::Relaxed);
     }
 
